@@ -786,6 +786,8 @@ register(PropertySpec(
              "(shared with C12) engine code compares nodes by identity (== / in on a node reads an unset field of the graph node, or builds a comparison)"),
         Rule("SLOT-STORE-LINKED", _lazy("history", "rule_slot_store_linked"), 3,
              "a node put into another node's operand / child slot after construction is linked below it in the graph as well (the reset and the cache invalidation follow the graph)"),
+        Rule("REG-ONLY-INSTANCES", _lazy("registry", "rule_reg_only_instances"), 1,
+             "what a class's own __new__ returns is registered only when it is an instance of the class"),
     ],
     explanation="Registry discipline is ownership: a single writer, on a must-pass-through path of the concrete "
                 "constructor arm, keyed by the runtime class; the symbolic arm provably (call-graph closure) cannot "
